@@ -102,10 +102,77 @@ def find(KL, specs_per_param=60, seeds=range(8), log=None):
     return found, missing
 
 
+# ------------------------------------------------------------------------------------------------------------------
+# hand-made witnesses for parameters the random search cannot reach with the generic inputs of c19_classes.outcomes():
+# they need input shapes that outcomes() does not produce (approval votes nested by constituency, nested seat counts,
+# max_seats).  `inputs` names a function below that evaluates the object on such inputs.
+
+def _O(cls, **a):
+    return {'t': 'obj', 'cls': cls, 'args': a}
+
+
+_E = 'votelib.evaluate.'
+_A2S = _O('votelib.convert.ApprovalToSimpleVotes')
+_PLUR = _O(_E + 'core.PreConverted', converter=_A2S, evaluator=_O(_E + 'core.Plurality'))
+MANUAL = [
+    {'cls': 'votelib.candidate.Coalition', 'param': 'affiliations', 'seed': 0, 'spec': {'t': 'obj', 'cls': 'votelib.candidate.Coalition', 'args': {'parties': {'t': 'list', 'v': [{'t': 'obj', 'cls': 'votelib.candidate.PoliticalParty', 'args': {'name': {'t': 'str', 'v': 'Greens'}, 'number': {'t': 'int', 'v': 28}, 'withdrawn': {'t': 'bool', 'v': True}}}, {'t': 'obj', 'cls': 'votelib.candidate.PoliticalParty', 'args': {'name': {'t': 'str', 'v': 'A'}, 'number': {'t': 'int', 'v': 20}}}, {'t': 'obj', 'cls': 'votelib.candidate.PoliticalParty', 'args': {'name': {'t': 'str', 'v': 'X-1'}, 'number': {'t': 'int', 'v': 11}}}]}, 'name': {'t': 'str', 'v': 'Émile Zola'}, 'number': {'t': 'int', 'v': 30}, 'affiliations': {'t': 'list', 'v': [{'t': 'obj', 'cls': 'votelib.candidate.PoliticalParty', 'args': {'name': {'t': 'str', 'v': 'Aff'}}}]}}}},
+    {'cls': 'votelib.candidate.Coalition', 'param': 'lead', 'seed': 0, 'spec': {'t': 'obj', 'cls': 'votelib.candidate.Coalition', 'args': {'parties': {'t': 'list', 'v': [{'t': 'obj', 'cls': 'votelib.candidate.PoliticalParty', 'args': {'name': {'t': 'str', 'v': 'Greens'}, 'number': {'t': 'int', 'v': 28}, 'withdrawn': {'t': 'bool', 'v': True}}}, {'t': 'obj', 'cls': 'votelib.candidate.PoliticalParty', 'args': {'name': {'t': 'str', 'v': 'A'}, 'number': {'t': 'int', 'v': 20}}}, {'t': 'obj', 'cls': 'votelib.candidate.PoliticalParty', 'args': {'name': {'t': 'str', 'v': 'X-1'}, 'number': {'t': 'int', 'v': 11}}}]}, 'name': {'t': 'str', 'v': 'Émile Zola'}, 'number': {'t': 'int', 'v': 30}, 'lead': {'t': 'obj', 'cls': 'votelib.candidate.Person', 'args': {'name': {'t': 'str', 'v': 'Lea Der'}}}}}},
+    {'cls': _E + 'core.ByConstituency', 'param': 'subsetter', 'seed': 0, 'inputs': 'nested_approval',
+     'spec': _O(_E + 'core.ByConstituency', evaluator=_PLUR, preselector=_PLUR, subsetter=_O('votelib.vote.ApprovalSubsetter'))},
+    {'cls': _E + 'core.ByParty', 'param': 'subsetter', 'seed': 0, 'inputs': 'nested_approval',
+     'spec': _O(_E + 'core.ByParty', overall_evaluator=_O(_E + 'core.PreConverted', converter=_A2S, evaluator=_O(_E + 'proportional.HighestAverages')),
+                allocator=_O(_E + 'proportional.HighestAverages'), subsetter=_O('votelib.vote.ApprovalSubsetter'))},
+    {'cls': _E + 'core.UnusedVotesDistributor', 'param': 'depth', 'seed': 0, 'inputs': 'nested_seats',
+     'spec': _O(_E + 'core.UnusedVotesDistributor',
+                rounds={'t': 'list', 'v': [
+                    _O(_E + 'core.ByConstituency', evaluator=_O(_E + 'proportional.QuotaDistributor', quota_function={'t': 'str', 'v': 'imperiali'},
+                                                                on_overaward={'t': 'str', 'v': 'subtract'})),
+                    _O(_E + 'core.RemovedApportionment', evaluator=_O(_E + 'core.ByParty', overall_evaluator=_O(
+                        _E + 'proportional.LargestRemainder', quota_function={'t': 'str', 'v': 'droop'})))]},
+                quota_functions={'t': 'list', 'v': [{'t': 'callable', 'v': 'votelib.component.quota.imperiali'}]},
+                depth={'t': 'int', 'v': 2})},
+    {'cls': _E + 'sequential.TransferableVoteDistributor', 'param': 'mandatory_quota', 'seed': 0, 'inputs': 'ranked_max_seats',
+     'spec': _O(_E + 'sequential.TransferableVoteDistributor', mandatory_quota={'t': 'bool', 'v': True})},
+]
+
+
+def custom_outcomes(KL, name, obj):
+    """canonical outcomes of `obj` on the hand-made inputs `name`"""
+    fs = frozenset
+    if name == 'nested_approval':
+        votes = [({'X': {fs('AB'): 5, fs('B'): 3, fs('C'): 4}, 'Y': {fs('A'): 2, fs('BC'): 6, fs('AC'): 1}}, n) for n in (2, 3)]
+        return [KL._try(lambda v=v, n=n: obj.evaluate(v, n)) for v, n in votes]
+    if name == 'nested_seats':
+        sv = {'N': {'A': 50, 'B': 30, 'C': 20}, 'S': {'A': 10, 'B': 40, 'C': 25}}
+        return [KL._try(lambda: obj.evaluate(sv, {'N': 3, 'S': 2})), KL._try(lambda: obj.evaluate(sv, {'N': 1, 'S': 4}))]
+    if name == 'ranked_max_seats':
+        cap = {'A': 1, 'B': 1, 'C': 1}
+        return [KL._try(lambda: obj.evaluate({('A',): 6, ('B',): 2, ('C',): 1}, 2, max_seats=dict(cap))),
+                KL._try(lambda: obj.evaluate({('A', 'B'): 5, ('B',): 1, ('C', 'B'): 2}, 2, max_seats=dict(cap)))]
+    raise ValueError(name)
+
+
+def witness_distinguishes(KL, w):
+    if not KL.is_deterministic(without(w['spec'], w['param'])):
+        return True        # the default is "unseeded random": any fixed seed differs from it by definition
+    if 'inputs' not in w:
+        return distinguishes(KL, w['spec'], w['param'], w['seed'])
+    try:
+        a = custom_outcomes(KL, w['inputs'], KL.build(w['spec']))
+        b = custom_outcomes(KL, w['inputs'], KL.build(without(w['spec'], w['param'])))
+    except Exception:
+        return False
+    return a != b
+
+
 def load():
     if not os.path.exists(TABLE):
         return {'found': [], 'missing': []}
-    return json.load(open(TABLE))
+    t = json.load(open(TABLE))
+    have = {(w['cls'], w['param']) for w in t['found']}
+    t['found'] = t['found'] + [w for w in MANUAL if (w['cls'], w['param']) not in have]
+    t['missing'] = [m for m in t['missing'] if (m['cls'], m['param']) not in {(w['cls'], w['param']) for w in MANUAL}]
+    return t
 
 
 if __name__ == '__main__':
